@@ -68,7 +68,8 @@ def generate(run, jobs):
 
 FAIL_KINDS = ["cond-notbool", "break-outside", "continue-outside", "arith-asg", "arith-if", "div-zero", "undef-var",
               "undef-func", "undef-method", "nil-deref", "nil-deref-set", "index-read", "index-write", "store-kind",
-              "panic-method", "argcount", "not-nonbool", "cmp-if", "logic-asg", "arith-return", "panic-func-return", "arith-conc"]
+              "panic-method", "argcount", "not-nonbool", "cmp-if", "logic-asg", "arith-return", "panic-func-return", "arith-conc",
+              "unexp-return", "panic-three"]
 
 
 def to_call(rec, rng, tpls):
@@ -128,7 +129,9 @@ def to_sessions(recs, rng, targets=("engine", "pool"), chain=1, sample=None, btp
                             c["via"] = "emSelected"
                 sid += 1
                 decl = [{"name": ru["name"], "sal": ru["sal"], "tpl": tpls[ru["name"]], "fk": fks[ru["name"]]} for ru in rules]
-                gated = any(c["method"] not in SEQ_ONLY for c in calls)
+                # parallel models are steered by gates (maximal overlap) - except one session in five, which runs at its natural
+                # speed (a rule that fails at once is then over before its siblings have started)
+                gated = any(c["method"] not in SEQ_ONLY for c in calls) and rng.random() < 0.8
                 sess = {"id": sid, "target": tgt, "gated": gated, "burst": gated and rng.random() < 0.5,
                         "rules": decl, "calls": calls}
                 if warm and decl and rng.random() < warm:
